@@ -250,7 +250,7 @@ def run(rec, shard, nshards, t):
     rnd = core.rng_for('C14', shard)
     tmp = tempfile.mkdtemp(prefix='vt-c14-')
     try:
-        for i in range((300 if t == 'quick' else 12000) // nshards):
+        for i in range((300 if t == 'quick' else 60000) // nshards):
             cr = gen_file(rnd)
             judge(rec, cr, boundary_txns(rnd, cr, 30), tmp, rnd)
             if i < 1 and shard == 0:
